@@ -21,6 +21,7 @@ def generate(rng, tier, ctx):
     lens = list(range(0, 301)) if tier == 'thorough' else list(range(0, 70)) + list(range(70, 301, 7)) + [299, 300]
     if tier == 'thorough': lens += [rng.randint(301, 100000) for _ in range(40)] + [100000]
     else: lens += [301, 1000, 1001, 5000]
+    lens += [65535, 65536, 65600, 131072 + 64]      # 64 KiB and more: the hash sees >= 1024 whole blocks in one write
     for L in lens:
         d = rng.seckey(); msg = rng.bytes(L)
         aux = rng.choice(['_', hx(rng.bytes(32)), hx(b'\0' * 32)])
@@ -31,6 +32,17 @@ def generate(rng, tier, ctx):
         msg = rng.bytes(32)
         for aux in ['_', hx(b'\0' * 32), hx(rng.bytes(32))]:
             cases.append(('schnorr_sign %s %s _ %s' % (hx(msg), kp(d), aux), ('sign32', 'aux-null' if aux == '_' else 'aux-zero' if aux == '00' * 32 else 'aux')))
+    # sparse aux values: exactly one non-zero byte (every position), exactly one non-zero 8-byte word - "absent randomness behaves as
+    # 32 zero bytes" must not extend to randomness that is zero only in part
+    d = rng.seckey(); msg = rng.bytes(32)
+    for i in range(32):
+        a = bytearray(32); a[i] = rng.choice([1, 0x80, rng.randint(1, 255)])
+        cases.append(('schnorr_sign %s %s %s %s' % (hx(msg), kp(d), rng.choice(['_', 'd']), hx(bytes(a))), ('sign32', 'aux-one-byte')))
+    for w in range(4):
+        a = bytearray(32); a[8 * w:8 * w + 8] = rng.bytes(8)
+        cases.append(('schnorr_sign %s %s _ %s' % (hx(rng.bytes(rng.choice([0, 32, 77]))), kp(rng.seckey()), hx(bytes(a))), ('sign', 'aux-one-word')))
+        a = bytearray(rng.bytes(32)); a[8 * w:8 * w + 8] = bytes(8)
+        cases.append(('schnorr_sign %s %s _ %s' % (hx(rng.bytes(32)), kp(rng.seckey()), hx(bytes(a))), ('sign32', 'aux-one-word-zero')))
     cases.append(('schnorr_sign %s %s Z _ _' % (hx(rng.bytes(32)), h32(5)), ('sign', 'zero-pk-keypair')))
     cases.append(('schnorr_sign %s %s %s _ _' % (hx(rng.bytes(32)), h32(0), pt(pmul(5, G))), ('sign', 'zero-sk-keypair')))
     cases.append(('schnorr_sign %s %s %s _ _' % (hx(rng.bytes(32)), h32(N), pt(pmul(5, G))), ('sign', 'overflow-sk-keypair')))
